@@ -57,9 +57,10 @@ fn parts_of(sbx: &Sbx, stem: &str) -> Vec<Vec<u8>> {
 }
 
 pub fn cli_crypt(ctx: &mut Ctx) {
+    let mut unsolid_runs = 0;
     let mut rng = rng_for(ctx.seed, "cli-crypt");
     ctx.rule = "real `pna create` with {--aes,--camellia} x {cbc,ctr} x {--pbkdf2 r=1..3, --argon2 t=1,m=8,p=1} x {--store,--deflate,--zstd} x {--solid} x {--split n} x password channel {--password=, --password-file} \
-                followed by `append`, `experimental update` and `experimental chmod --keep-solid` with the password; every produced part scanned for 8-byte runs of the (incompressible) plaintext, entry names in solid mode, the password and the derived keys (raw/hex/base64); \
+                followed by `append`, `experimental update`, `experimental chmod --keep-solid` and an `--unsolid` rewrite (chmod / strip / xattr set) with the password; every produced part scanned for 8-byte runs of the (incompressible) plaintext, entry names in solid mode, the password and the derived keys (raw/hex/base64); \
                 salts and IVs of all distinct encrypted streams of the run pairwise distinct; `pna extract` with password pairs (equal, one character, case, trailing blank, trailing newline, CRLF, NFC/NFD, none) x both channels".into();
     let n = if ctx.thorough { 300 } else { 24 };
     let mut seen: Vec<(String, Vec<u8>, String)> = vec![];
@@ -185,6 +186,58 @@ pub fn cli_crypt(ctx: &mut Ctx) {
             if xr.crashed() || xr.hung() { ctx.violation("C07", "`pna extract` without a password crashed or hung", json!({"case":attrs,"run":xr.brief()})); }
             else if xr.ok() || recovered > 0 { ctx.violation("C16", "extraction without a password did not fail", json!({"case":attrs,"run":xr.brief(),"recovered":recovered})); }
         }
+        // --- rewrites of the freshly created solid archive (copies: `update` below rewrites everything as normal entries)
+        let files0 = files.clone();
+        if solid && !split {
+            let _ = std::fs::copy(sbx.path("a.pna"), sbx.path("k.pna"));
+            let _ = std::fs::copy(sbx.path("a.pna"), sbx.path("u.pna"));
+        }
+        if solid && !split {
+            let mut a: Vec<String> = vec!["--quiet".into(), "experimental".into(), "chmod".into(), "--keep-solid".into()];
+            a.extend(pw_args(chan_w, &pw_w, "pw_w"));
+            a.extend(["k.pna".to_string(), "--".into(), "600".into(), format!("t/secret-name-{tag}-1.bin")]);
+            let av: Vec<&str> = a.iter().map(|s| s.as_str()).collect();
+            let r = run_pna(&sbx, &sbx.root, &av, None, 120, &[]);
+            if r.crashed() || r.hung() { ctx.violation("C07", "`pna experimental chmod --keep-solid` crashed or hung", json!({"case":attrs,"run":r.brief()})); }
+            if r.ok() { ctx.count("stage:keep-solid-rewrite"); scan(ctx, "keep-solid-rewrite", "k", &files0, true, &mut seen, &mut dup_reported); } else { ctx.count("keep-solid-rewrite-failed"); }
+        }
+        // (every entry written again derives its own key with the default argon2id cost: two such cases in the quick tier)
+        if solid && !split && (ctx.thorough || unsolid_runs < 2) {
+            unsolid_runs += 1;
+            // the same archive rewritten with --unsolid: the entries leave the block's encrypted stream and must not
+            // come out in the clear (names are visible in a non-solid archive by design)
+            let which = (case + ctx.seed as usize) % 3;
+            let mut a: Vec<String> = vec!["--quiet".into()];
+            match which {
+                0 => a.extend(["experimental".to_string(), "chmod".into(), "--unsolid".into()]),
+                1 => a.extend(["strip".to_string(), "--unsolid".into()]),
+                _ => a.extend(["experimental".to_string(), "xattr".into(), "set".into(), "--unsolid".into()]),
+            }
+            a.extend(pw_args(chan_w, &pw_w, "pw_w"));
+            match which {
+                0 => a.extend(["u.pna".to_string(), "--".into(), "640".into(), format!("t/secret-name-{tag}-1.bin")]),
+                1 => a.extend(["u.pna".to_string()]),
+                _ => a.extend(["u.pna".to_string(), "--name".into(), "user.k".into(), "--value".into(), "v".into(), format!("t/secret-name-{tag}-1.bin")]),
+            }
+            let av: Vec<&str> = a.iter().map(|s| s.as_str()).collect();
+            let r = run_pna(&sbx, &sbx.root, &av, None, 120, &[]);
+            if r.crashed() || r.hung() { ctx.violation("C07", "an --unsolid rewrite of an encrypted solid archive crashed or hung", json!({"case":attrs,"argv":av,"run":r.brief()})); }
+            if r.ok() {
+                ctx.count("stage:unsolid-rewrite");
+                scan(ctx, "unsolid-rewrite", "u", &files0, false, &mut seen, &mut dup_reported);
+                // and the password still recovers every file
+                let _ = std::fs::remove_dir_all(sbx.path("ou"));
+                let mut x: Vec<String> = vec!["--quiet".into(), "extract".into(), "u.pna".into(), "--out-dir".into(), "ou".into(), "--overwrite".into()];
+                x.extend(pw_args(chan_w, &pw_w, "pw_w"));
+                let xv: Vec<&str> = x.iter().map(|s| s.as_str()).collect();
+                let xr = run_pna(&sbx, &sbx.root, &xv, None, 120, &[]);
+                ctx.oracle_eval();
+                let lost: Vec<&String> = files0.iter().filter(|(n, c)| std::fs::read(sbx.path(&format!("ou/{n}"))).map(|b| &b != c).unwrap_or(true)).map(|(n, _)| n).collect();
+                if !xr.ok() || !lost.is_empty() {
+                    ctx.violation("C16", "after an --unsolid rewrite of an encrypted solid archive the right password no longer recovers every file", json!({"case":attrs,"argv":av,"run":xr.brief(),"lost":lost}));
+                }
+            } else { ctx.count("unsolid-rewrite-failed"); ctx.notes.push(format!("unsolid rewrite failed: {:?} {}", av, r.stderr.chars().take(200).collect::<String>())); }
+        }
         // --- further writers: append / update / keep-solid rewrite (single-file archives only)
         if !split {
             let name = format!("t/secret-name-{tag}-appended.bin");
@@ -208,15 +261,6 @@ pub fn cli_crypt(ctx: &mut Ctx) {
             let r = run_pna(&sbx, &sbx.root, &av, None, 120, &[]);
             if r.crashed() || r.hung() { ctx.violation("C07", "`pna experimental update` crashed or hung", json!({"case":attrs,"run":r.brief()})); }
             if r.ok() { ctx.count("stage:update"); scan(ctx, "update", "a", &files, false, &mut seen, &mut dup_reported); }
-            if solid {
-                let mut a: Vec<String> = vec!["--quiet".into(), "experimental".into(), "chmod".into(), "--keep-solid".into()];
-                a.extend(pw_args(chan_w, &pw_w, "pw_w"));
-                a.extend(["a.pna".to_string(), "--".into(), "600".into(), format!("t/secret-name-{tag}-1.bin")]);
-                let av: Vec<&str> = a.iter().map(|s| s.as_str()).collect();
-                let r = run_pna(&sbx, &sbx.root, &av, None, 120, &[]);
-                if r.crashed() || r.hung() { ctx.violation("C07", "`pna experimental chmod --keep-solid` crashed or hung", json!({"case":attrs,"run":r.brief()})); }
-                if r.ok() { ctx.count("stage:keep-solid-rewrite"); scan(ctx, "keep-solid-rewrite", "a", &files, false, &mut seen, &mut dup_reported); } else { ctx.count("keep-solid-rewrite-failed"); }
-            }
         }
         ctx.case_free();
     }
